@@ -481,6 +481,124 @@ func runC18(c *Ctx) {
 		}
 	}
 	if !foundW {
+		// the header built by a function of the package from the length it is handed:
+		//   hdr := contentLengthHeader(len(data)); conn.Write(hdr); conn.Write(data)
+		for _, bfd := range allFuncDecls(p) {
+			if bfd.Body == nil {
+				continue
+			}
+			prms := paramObjs(info, bfd)
+			if len(prms) != 1 || prms[0] == nil {
+				continue
+			}
+			if b, ok := prms[0].Type().Underlying().(*types.Basic); !ok || b.Info()&types.IsInteger == 0 {
+				continue
+			}
+			mentionsName, sep, digits, arith := false, "", false, false
+			ast.Inspect(bfd.Body, func(n ast.Node) bool {
+				switch v := n.(type) {
+				case *ast.Ident:
+					if sv, ok := constString(info, v); ok {
+						if sv == "Content-Length" {
+							mentionsName = true
+						} else if strings.HasSuffix(sv, "\n") || strings.Contains(sv, "\r\n") {
+							sep = sv
+						}
+					}
+				case *ast.BasicLit:
+					if sv, ok := constString(info, v); ok && strings.Contains(sv, "\r\n") {
+						sep = sv
+					}
+				case *ast.CallExpr:
+					if fn := calleeOf(info, v); fn != nil {
+						switch fullName(fn) {
+						case "strconv.AppendInt", "strconv.Itoa", "strconv.FormatInt", "strconv.AppendUint", "strconv.FormatUint":
+							// the number printed is the parameter itself, in base 10
+							var num ast.Expr = v.Args[0]
+							if strings.HasPrefix(fn.Name(), "Append") {
+								num = v.Args[1]
+							}
+							if cv, ok := ast.Unparen(num).(*ast.CallExpr); ok && len(cv.Args) == 1 {
+								if tv, ok := info.Types[cv.Fun]; ok && tv.IsType() {
+									num = cv.Args[0]
+								}
+							}
+							if id, ok := ast.Unparen(num).(*ast.Ident); ok && info.ObjectOf(id) == prms[0] {
+								digits = true
+							} else {
+								arith = true
+							}
+							if len(v.Args) >= 2 && fn.Name() != "Itoa" {
+								if base, ok := constInt(info, v.Args[len(v.Args)-1]); ok && base != 10 {
+									arith = true
+								}
+							}
+						}
+					}
+				}
+				return true
+			})
+			if !mentionsName || !digits {
+				continue
+			}
+			// the writer: a function that calls the builder with len(X), writes the result, then writes X
+			for _, fd := range allFuncDecls(p) {
+				if fd.Body == nil || fd == bfd {
+					continue
+				}
+				var bcall *ast.CallExpr
+				ast.Inspect(fd.Body, func(n ast.Node) bool {
+					if call, ok := n.(*ast.CallExpr); ok && types.Object(calleeOf(info, call)) == info.Defs[bfd.Name] && len(call.Args) == 1 {
+						bcall = call
+					}
+					return true
+				})
+				if bcall == nil {
+					continue
+				}
+				foundW = true
+				key := funcKey(p, fd)
+				var lenObj types.Object
+				if lc, ok := ast.Unparen(bcall.Args[0]).(*ast.CallExpr); ok {
+					if id, ok := lc.Fun.(*ast.Ident); ok && id.Name == "len" && len(lc.Args) == 1 {
+						if aid, ok := lc.Args[0].(*ast.Ident); ok {
+							lenObj = info.ObjectOf(aid)
+						}
+					}
+				}
+				c.check(lenObj != nil && !arith, "C18.R2", key+"|header-length-is-len", c.pos(bcall.Pos()), "the header builder is handed len(<data>) and prints its parameter in base 10",
+					"the Content-Length written in the frame header is not exactly len() of a byte slice")
+				c.check(true, "C18.R2", key+"|header-format", c.pos(bcall.Pos()), "name, \": \", decimal length, separator — appended by "+bfd.Name.Name, "")
+				c.check(sep == "\r\n\r\n", "C18.R2", key+"|header-separator", c.pos(bcall.Pos()), "header ends with CRLF CRLF", fmt.Sprintf("the header/content separator constant is %q, not CRLF CRLF", sep))
+				// the header write (the builder's result, directly or through a local) and, after it, the write of the measured slice
+				fc := newFnCFG(fd.Body, info)
+				var hdrWrite *ast.CallExpr
+				bodyWrite := false
+				ast.Inspect(fd.Body, func(n ast.Node) bool {
+					call, ok := n.(*ast.CallExpr)
+					if !ok || len(call.Args) != 1 {
+						return true
+					}
+					se, ok := call.Fun.(*ast.SelectorExpr)
+					if !ok || se.Sel.Name != "Write" {
+						return true
+					}
+					arg := unfoldLocals(p, fd, call.Args[0])
+					if ast.Unparen(arg) == ast.Expr(bcall) {
+						hdrWrite = call
+					}
+					if id, ok := ast.Unparen(call.Args[0]).(*ast.Ident); ok && info.ObjectOf(id) == lenObj && hdrWrite != nil && fc.dominates(hdrWrite, call) &&
+						types.ExprString(se.X) == types.ExprString(hdrWrite.Fun.(*ast.SelectorExpr).X) {
+						bodyWrite = true
+					}
+					return true
+				})
+				c.check(hdrWrite != nil && bodyWrite, "C18.R2", key+"|body-is-measured-slice", c.pos(bcall.Pos()), "the slice measured for the header is the slice written as the body",
+					"the byte slice written after the header is not the one whose length the header announced")
+			}
+		}
+	}
+	if !foundW {
 		c.viol("C18.R2", "anchor-lost:framed-writer", "", "no function writes a Content-Length header")
 	}
 
@@ -958,9 +1076,67 @@ func runC18(c *Ctx) {
 			}
 		}
 	}
+	// a registering helper that makes the channel itself and hands it back: rchan := c.addPending(id)
+	//   func (c *conn) addPending(id ID) chan *Response { ch := make(chan *Response, 1); lock; pending[id] = ch; unlock; return ch }
+	type madeChan struct {
+		capOK bool
+	}
+	makeHelpers := map[types.Object]madeChan{}
+	for _, fd := range allFuncDecls(p) {
+		if fd.Body == nil || fd.Type.Results == nil || len(fd.Type.Results.List) != 1 {
+			continue
+		}
+		var stored types.Object
+		ast.Inspect(fd.Body, func(n ast.Node) bool {
+			if as, ok := n.(*ast.AssignStmt); ok && len(as.Lhs) == 1 && len(as.Rhs) == 1 {
+				if ix, ok := as.Lhs[0].(*ast.IndexExpr); ok && isPending(ix.X) && paramIndex(fd, ix.Index) >= 0 {
+					if vid, ok := ast.Unparen(as.Rhs[0]).(*ast.Ident); ok && paramIndex(fd, vid) < 0 {
+						stored = info.ObjectOf(vid)
+					}
+				}
+			}
+			return true
+		})
+		if stored == nil {
+			continue
+		}
+		made, capOK, returned := false, false, true
+		ast.Inspect(fd.Body, func(n ast.Node) bool {
+			switch v := n.(type) {
+			case *ast.AssignStmt:
+				if len(v.Lhs) == 1 && len(v.Rhs) == 1 {
+					if lid, ok := v.Lhs[0].(*ast.Ident); ok && info.ObjectOf(lid) == stored {
+						if call, ok := v.Rhs[0].(*ast.CallExpr); ok {
+							if id, ok := call.Fun.(*ast.Ident); ok && id.Name == "make" {
+								made = true
+								if len(call.Args) == 2 {
+									if cv, ok := constInt(info, call.Args[1]); ok && cv >= 1 {
+										capOK = true
+									}
+								}
+							}
+						}
+					}
+				}
+			case *ast.ReturnStmt:
+				if len(v.Results) != 1 {
+					returned = false
+				} else if rid, ok := ast.Unparen(v.Results[0]).(*ast.Ident); !ok || info.ObjectOf(rid) != stored {
+					returned = false
+				}
+			}
+			return true
+		})
+		if made && returned {
+			makeHelpers[info.Defs[fd.Name]] = madeChan{capOK}
+		}
+	}
 	// Call: the function that registers a reply channel in the pending map (directly or through such a helper)
 	for _, fd := range allFuncDecls(p) {
 		if _, isHelper := storeHelpers[info.Defs[fd.Name]]; isHelper {
+			continue
+		}
+		if _, isHelper := makeHelpers[info.Defs[fd.Name]]; isHelper {
 			continue
 		}
 		var store ast.Node
@@ -977,6 +1153,21 @@ func runC18(c *Ctx) {
 				if fn := calleeOf(info, n); fn != nil {
 					if vi, ok := storeHelpers[fn]; ok && vi < len(n.Args) {
 						store, storedChan = n, n.Args[vi]
+					}
+				}
+			}
+			return true
+		})
+		// rchan := c.addPending(id): the channel is the one the helper made
+		var viaMake *madeChan
+		ast.Inspect(fd.Body, func(n ast.Node) bool {
+			if as, ok := n.(*ast.AssignStmt); ok && len(as.Lhs) == 1 && len(as.Rhs) == 1 {
+				if call, ok := ast.Unparen(as.Rhs[0]).(*ast.CallExpr); ok {
+					if fn := calleeOf(info, call); fn != nil {
+						if mh, ok := makeHelpers[fn]; ok {
+							store, storedChan = call, as.Lhs[0]
+							viaMake = &mh
+						}
 					}
 				}
 			}
@@ -1030,6 +1221,9 @@ func runC18(c *Ctx) {
 			}
 			return true
 		})
+		if viaMake != nil {
+			origin, capOK = "make", viaMake.capOK
+		}
 		c.check(origin == "make", "C18.R4", key+"|reply-channel-fresh-per-call", c.pos(fd.Pos()), "the reply channel is made by this call",
 			"the reply channel registered for a call is not allocated by that call (it comes from `"+origin+"`): a response that arrives after the caller gave up stays in the recycled channel and is handed to a later call, which returns another request's result")
 		if origin != "make" {
@@ -1835,6 +2029,17 @@ func frameIsNotCutShort(c *Ctx, rule string) {
 				case *ast.CallExpr:
 					if dest(x) != nil {
 						writes = true
+					}
+					// … or a header builder of the package that does
+					if fn := calleeOf(info, x); fn != nil && fn.Pkg() == p.Types && decls[types.Object(fn)] != nil && decls[types.Object(fn)] != fd && decls[types.Object(fn)].Body != nil {
+						ast.Inspect(decls[types.Object(fn)].Body, func(m ast.Node) bool {
+							if id, ok := m.(*ast.Ident); ok {
+								if k, ok := info.Uses[id].(*types.Const); ok && k.Val().Kind() == constant.String && strings.Contains(constant.StringVal(k.Val()), "Content-Length") {
+									mentions = true
+								}
+							}
+							return true
+						})
 					}
 				}
 				return true
